@@ -333,7 +333,9 @@ impl Env {
     /// Returns None if the call panicked (recorded as a fatal C01 failure unless expected).
     pub fn call<R>(&mut self, what: &str, f: impl FnOnce() -> R) -> Option<R> {
         QUIET_PANICS.with(|q| q.set(true));
+        crate::val::set_in_lib(true);
         let (res, counts) = alloc_count::armed(|| catch_unwind(AssertUnwindSafe(f)));
+        crate::val::set_in_lib(false);
         QUIET_PANICS.with(|q| q.set(false));
         self.alloc.allocs += counts.allocs;
         self.alloc.deallocs += counts.deallocs;
